@@ -167,6 +167,11 @@ class ExprMixin:
             tx = ty
         if e["Y"].get("isnil") and not e["X"].get("isnil"):
             ty = tx
+        if op in ("==", "!=") and tx.under().k == "iface" and (e["X"].get("isnil") != e["Y"].get("isnil")):
+            # interface compared with the nil literal: nil-ness is the dynamic type word alone
+            v = self.ev(e["Y"] if e["X"].get("isnil") else e["X"], st)
+            r = v.tag == rid(0)
+            return r if op == "==" else znot(r)
         x = self.ev_typed(e["X"], tx, st)
         y = self.ev_typed(e["Y"], ty, st)
         # mixed interface / concrete comparison
@@ -388,6 +393,7 @@ class ExprMixin:
         fn = z3.Function("fp_%s_%s_%d" % (op, "_".join(str(o.sort().size()) for o in operands), w),
                          *([o.sort() for o in operands] + [z3.BitVecSort(w)]))
         r = fn(*operands)
+        self.fp_defs.add(len(self.facts))
         self.facts.append(z3.fpBVToFP(r, self.fp_sort(t)) == f)
         return r
 
@@ -419,6 +425,7 @@ class ExprMixin:
             lo, hi = self.int_range_fp(tt, ft)
             inrange = z3.And(z3.Not(z3.fpIsNaN(f)), z3.fpGT(f, lo), z3.fpLT(f, hi))
             # out of range / NaN: implementation-defined result -> unconstrained
+            self.fp_defs.add(len(self.facts))
             self.facts.append(z3.Implies(inrange, r == conv))
             return r
         if ft.is_string() and tu.k == "slice":
